@@ -111,7 +111,7 @@ func edTorsion(rng *rand.Rand) [][2]*big.Int {
 }
 
 func runC17(r *Run, rng *rand.Rand, thorough bool) {
-	r.Rule = "exact ops: crypto.ECPoint constructor/Add/ScalarMult/ScalarBaseMult/EightInvEight on btcec secp256k1 and dcrd edwards25519 vs the Lean model's own affine arithmetic; non-trivial = distinct op line on a non-identity input; direct assertions: every door (constructor, unflatten, JSON, Gob) accepts only canonical on-curve coordinates and round-trips, group laws on sampled triples, cofactor clearing on all 8 torsion points, scalar multiplication of torsion and mixed-order edwards points by scalars around and beyond the subgroup order"
+	r.Rule = "exact ops: crypto.ECPoint constructor/Add/ScalarMult/ScalarBaseMult/EightInvEight on btcec secp256k1 and dcrd edwards25519 vs the Lean model's own affine arithmetic; non-trivial = distinct op line on a non-identity input; direct assertions: every door (constructor, unflatten, JSON, Gob) accepts only canonical on-curve coordinates (also for the small-order points and their aliases with a coordinate written as P or P+1) and round-trips, group laws on sampled triples, cofactor clearing on all 8 torsion points, scalar multiplication of torsion and mixed-order edwards points by scalars around and beyond the subgroup order"
 	reps := 4
 	if thorough {
 		reps = 25
@@ -222,6 +222,30 @@ func runC17(r *Run, rng *rand.Rand, thorough bool) {
 	}
 	// edwards: cofactor clearing over the 8 torsion points
 	ed := tss.Edwards()
+	// the doors on the small-order points and their non-canonical aliases: coordinates 0 and 1 written as P and P+1
+	// (the only points with a zero coordinate are among these)
+	{
+		edP := ed.Params().P
+		for k, t := range edTorsion(rng) {
+			x, y := t[0], t[1]
+			cands := [][3]interface{}{
+				{"torsion", x, y},
+				{"torsion-x+p", new(big.Int).Add(x, edP), y},
+				{"torsion-y+p", x, new(big.Int).Add(y, edP)},
+				{"torsion-both+p", new(big.Int).Add(x, edP), new(big.Int).Add(y, edP)},
+			}
+			for _, cd := range cands {
+				name, X, Y := fmt.Sprintf("%s#%d", cd[0].(string), k), cd[1].(*big.Int), cd[2].(*big.Int)
+				want := refOnCurve("ed", X, Y)
+				key := "crypto.NewECPoint/" + cd[0].(string)
+				g, _, _ := r.Do(key, true, "ec_new", "ed", eInt(X), eInt(Y))
+				r.Assert((g == "ok") == want, key, "constructor-accepts-iff-on-curve", func() string {
+					return fmt.Sprintf("ed %s (%s,%s): accepted=%v on-curve=%v", name, eInt(X), eInt(Y), g == "ok", want)
+				})
+				doors(r, "ed", ed, cd[0].(string), X, Y, want)
+			}
+		}
+	}
 	for rep := 0; rep < reps; rep++ {
 		tors := edTorsion(rng)
 		Pm := crypto.ScalarBaseMult(ed, new(big.Int).Add(randInt(rng, 250), bi(1)))
